@@ -282,7 +282,7 @@ pub fn forbid_unsafe() -> Result<String, String> {
 pub fn plan(tier: Tier) -> Plan {
     let mut p = Plan::new("C20", "exploration");
     let thorough = tier.thorough();
-    p.rule = "(a) boundary grid: total length 0..64 x version field {0,1,2,3,4,2^32,u64::MAX} x root address {0,1,15,16,len-22..len-16,len-1,len,len+1,2^31,2^63,u64::MAX-20,u64::MAX-16,u64::MAX} x key count {0,1,u64::MAX} x filler {00,ff,80,40,c1} x checksum {0, correct, inverted}; (b) every truncation (every prefix and every suffix) and every single-byte mutation (255 values) of every FST built from subsets of U_ab3 with <= 3 keys (thorough: <= 4) and of three fan-out FSTs; for each byte string (as given and as an interior slice 1, 3 and 7 bytes past an 8-byte boundary), under catch_unwind with overflow checks on: Fst::new / Map::new / Set::new (slice and Vec) / map_data of an existing reader to these bytes and, on whatever opens, len, is_empty, fst_type, size, as_bytes, to_vec, verify - any panic is a violation; (b2) files written by the independent reference encoder in versions 1, 2 and 3 (small sets, fan-outs 1..256 across the index threshold, final roots, wide node below a prefix; both node-form policies): each as is, with the header relabelled to each other version (checksum added/dropped/recomputed), every truncation, and single-byte mutants (11 xor masks per position) both plain and WITH THE CHECKSUM RECOMPUTED so that the code behind the checksum test is reached; (c) cargo rustc -p fst --lib --features levenshtein -- -F unsafe_code must compile (a lint, not model checking). non-trivial = byte strings that open".into();
+    p.rule = "[also: verify() of well-formed files of 40 bytes .. 9 MB in growing, shrinking and mixed order on one fresh thread and then on others] (a) boundary grid: total length 0..64 x version field {0,1,2,3,4,2^32,u64::MAX} x root address {0,1,15,16,len-22..len-16,len-1,len,len+1,2^31,2^63,u64::MAX-20,u64::MAX-16,u64::MAX} x key count {0,1,u64::MAX} x filler {00,ff,80,40,c1} x checksum {0, correct, inverted}; (b) every truncation (every prefix and every suffix) and every single-byte mutation (255 values) of every FST built from subsets of U_ab3 with <= 3 keys (thorough: <= 4) and of three fan-out FSTs; for each byte string (as given and as an interior slice 1, 3 and 7 bytes past an 8-byte boundary), under catch_unwind with overflow checks on: Fst::new / Map::new / Set::new (slice and Vec) / map_data of an existing reader to these bytes and, on whatever opens, len, is_empty, fst_type, size, as_bytes, to_vec, verify - any panic is a violation; (b2) files written by the independent reference encoder in versions 1, 2 and 3 (small sets, fan-outs 1..256 across the index threshold, final roots, wide node below a prefix; both node-form policies): each as is, with the header relabelled to each other version (checksum added/dropped/recomputed), every truncation, and single-byte mutants (11 xor masks per position) both plain and WITH THE CHECKSUM RECOMPUTED so that the code behind the checksum test is reached; (c) cargo rustc -p fst --lib --features levenshtein -- -F unsafe_code must compile (a lint, not model checking). non-trivial = byte strings that open".into();
     p.assumptions = vec![
         "operations after the gate (root, stream, get) on garbage may panic by the property's own wording and are not called".into(),
         "the 'no unsafe code' clause is decided by the compiler's forbid(unsafe_code) lint over the library crate with the levenshtein feature on".into(),
@@ -388,6 +388,42 @@ pub fn plan(tier: Tier) -> Plan {
         }
     }));
     p.must_be_nonzero = vec!["grid_files_opened".into(), "mutants_opened".into(), "unsafe_lint_passed".into(), "legacy_files_opened".into()];
+    // verify() of well-formed files of very different sizes, in growing, shrinking and mixed
+    // order on one fresh thread, then on a second thread in another order (whatever verify()
+    // sizes or caches from the first file it sees must not break on the next)
+    p.units.push(unit("verify-of-files-of-growing-and-shrinking-sizes-on-one-thread-and-across-threads", "verify size sequences".into(), move |st, rep| {
+        let sizes: [usize; 9] = [3_100, 40, 40_000, 4_000, 400_000, 3_000_000, 70_000, 9_000_000, 5_000];
+        let files: std::sync::Arc<Vec<Vec<u8>>> = std::sync::Arc::new(sizes.iter().map(|&l| {
+            let mut b = fst::raw::Builder::memory();
+            b.insert(vec![b'a'; l], 7).unwrap();
+            b.insert(vec![b'b'; 3], 9).unwrap();
+            b.into_inner().unwrap()
+        }).collect());
+        let run = |order: Vec<usize>, files: std::sync::Arc<Vec<Vec<u8>>>| -> Result<u64, String> {
+            std::thread::spawn(move || -> Result<u64, String> {
+                let mut n = 0;
+                for i in order {
+                    let r = guard(|| Fst::new(&files[i][..]).map(|f| (f.verify().is_ok(), f.len())));
+                    match r {
+                        Ok(Ok((true, 2))) => n += 1,
+                        Ok(other) => return Err(format!("verify() of a builder output of {} bytes (file {} of the sequence) gave {:?}", files[i].len(), n + 1, other.map(|x| x.0).map_err(|e| format!("{:?}", e)))),
+                        Err(p) => return Err(format!("verify() of a well-formed file of {} bytes, the {}. file verified on this thread: {}", files[i].len(), n + 1, p)),
+                    }
+                }
+                Ok(n)
+            })
+            .join()
+            .map_err(|_| "thread panicked".to_string())?
+        };
+        for order in [vec![0usize, 1, 2, 3, 4, 5, 6, 7, 8], vec![8, 7, 6, 5, 4, 3, 2, 1, 0], vec![7, 0, 5, 2]] {
+            st.evals += order.len() as u64;
+            st.states += order.len() as u64;
+            match run(order.clone(), files.clone()) {
+                Ok(n) => st.count("verify_size_sequence_calls", n),
+                Err(msg) => rep.violation(format!("verify sizes {:?}", order), msg, json!({"verify_sizes": order})),
+            }
+        }
+    }));
     p.rule.push_str(super::seqread::RULE);
     p.rule.push_str(super::seqread::RULE_CONCURRENT);
     super::seqread::add_concurrent_unit(&mut p, super::seqread::Class::Panics);
